@@ -11166,8 +11166,13 @@ where
 			&& self.pending_splice.is_none()
 			&& self.funding.channel_transaction_parameters.splice_parent_funding_txid.is_none()
 		{
-			// We should never have to worry about MonitorUpdateInProgress resending ChannelReady
-			self.get_channel_ready(logger)
+			if self.context.monitor_pending_channel_ready {
+				// Our `channel_ready` has never been sent: it is being held until the in-progress
+				// monitor update completes, and will be released by `monitor_updating_restored`.
+				None
+			} else {
+				self.get_channel_ready(logger)
+			}
 		} else { None };
 
 		// A receiving node:
